@@ -80,6 +80,10 @@ func (i *interpreter) symSprintf(format string, list []value) value {
 			out = append(out, ss.b...)
 			continue
 		}
+		if sv, ok := e.v.(symv); ok && spec == "%d" && (sv.k == types.Int64 || sv.k == types.Int) {
+			out = append(out, decTok{sv})
+			continue
+		}
 		sym := false
 		var na any
 		if strings.IndexByte("dxXobcU", format[j]) >= 0 && e.t != nil {
@@ -207,6 +211,13 @@ func init() {
 		var parts []value
 		var cur []value
 		for _, b := range ss.b {
+			if _, tok := b.(decTok); tok {
+				if (sep[0] >= '0' && sep[0] <= '9') || sep[0] == '-' {
+					panic(engineError{"strings.Split of a decimal token by a digit or '-'"})
+				}
+				cur = append(cur, b)
+				continue
+			}
 			if i.truth("split:"+sep, i.equalsV(types.Typ[types.Uint8], b, sep[0])) {
 				parts = append(parts, mkstr(cur))
 				cur = nil
